@@ -272,11 +272,9 @@ def check(ctx):
 
 
 def level_payload(P, N, cl, n):
-    if len(cl.args) < 3:
-        return False
-    t = cl.args[2]
-    return isinstance(t, ast.Tuple) and len(t.elts) == 2 and N.norm(t.elts[0], FrameEnv(n.frame)).is_({'NOW': 1}) \
-        and N.norm(t.elts[1], FrameEnv(n.frame)).is_({'self._level': 1}) and ast.unparse(cl.args[1]) == 'self.name'
+    d = dv.datapoint(cl, n.frame)
+    return d is not None and d['elts'] is not None and len(d['elts']) == 2 and N.norm(d['elts'][0], {}).is_({'NOW': 1}) \
+        and N.norm(d['elts'][1], {}).is_({'self._level': 1}) and d['sub'] == 'self.name'
 
 
 def dirty_pairing(ctx, o, c, field, sub, label, payload_check=None, entries=None, env_field=None, is_write=None, what=None, opaque=OPQ,
@@ -310,8 +308,8 @@ def dirty_pairing(ctx, o, c, field, sub, label, payload_check=None, entries=None
                     st = st.with_flag('DOUBLE-WRITE')
                 st = st.with_field('#dirty', 'T')
             for cl in calls_at(an.g, n):
-                if call_attr(cl) == 'add_datapoint' and cl.args and ((isinstance(cl.args[0], ast.Constant) and cl.args[0].value == label)
-                                                                       or (callable(label) and label(cl, n))):
+                dp_ = dv.datapoint(cl, n.frame) if call_attr(cl) == 'add_datapoint' else None
+                if dp_ is not None and (dp_['label'] == label or (callable(label) and label(cl, n))):
                     if payload_check is not None and not payload_check(cl, n):
                         st = st.with_flag('BAD-PAYLOAD')
                     if st.fields['#dirty'] != 'T':
